@@ -69,7 +69,10 @@ def predicate(ops, out):
             if len(ids) != len(set(ids)):
                 dup = [i for i in set(ids) if ids.count(i) > 1]
                 return f"`{op}`: packet id {dup[0]} is used by two messages awaiting acknowledgement: {[e for e in unf if e.id == dup[0]]}"
-            # window: unacknowledged QoS>0 PUBLISH on this connection
+            # window: unacknowledged QoS>0 PUBLISH on this connection (not on one that this very op displaced or closed:
+            # what the session holds now was sent on its successor)
+            if "closed" in h:
+                continue
             limit = min(rm.get(name, 65535), cfg_mi)
             sent_here = [e for e in unf if not (e.qos == 2 and e.acked)]
             if len(sent_here) > limit:
